@@ -8,6 +8,8 @@ import Mathlib.Tactic.Linarith
 import Mathlib.Tactic.FieldSimp
 import Mathlib.Tactic.Ring
 
+set_option linter.unusedSectionVars false
+
 namespace Pymoode
 namespace C11
 
